@@ -127,7 +127,7 @@ def run(ctx):
             for (o2, x, y) in ((op, a, b), (SWAP[op], b, a)):
                 if o2 != 'Lt':
                     continue
-                xr, yr = P.root(x), P.root(y)
+                xr, yr = P.root(x), P.root(y, through_params=True)
                 is_cnt = bool(xr) and all(P.is_call(r, 'Weak::strong_count', 'Arc::strong_count') for r, _ in xr)
                 if is_cnt:
                     # counted on this key's own entry
@@ -148,7 +148,7 @@ def run(ctx):
         for op, a, b, sw in facts:
             for (o2, x, y) in ((op, a, b), (SWAP[op], b, a)):
                 if o2 == 'Ge':
-                    xr, yr = P.root(x), P.root(y)
+                    xr, yr = P.root(x), P.root(y, through_params=True)
                     if xr and all(P.is_call(r, 'Weak::strong_count', 'Arc::strong_count') for r, _ in xr) and yr and all(r[0] == 'param' and P.fpath(p)[-1:] == (lim_field,) for r, p in yr):
                         ok = True
         R.ob('C13.admit', ('admission', 'shed only at the limit'), ok, 'a channel is refused only under strong_count(entry) >= channels_per_key', [adm.loc(s)])
@@ -208,7 +208,14 @@ def run(ctx):
     # ... and the admission function is consulted for every arrival: the function that builds the TrackedChannel calls it unconditionally
     builders = [g for g in reach if any(True for _ in g.aggregates('TrackedChannel'))]
     for g in builders:
-        calls_adm = [bb for bb, t in g.calls() if F.callee_fn(t) is adm]
+        def _always_admits(h, depth=2):
+            if h is adm:
+                return True
+            if h is None or depth == 0:
+                return False
+            bs_ = [bb_ for bb_, t_ in h.calls() if _always_admits(F.callee_fn(t_), depth - 1)]
+            return len(bs_) == 1 and cfg.all_paths_pass(h, 0, cfg.exits(h), set(bs_))
+        calls_adm = [bb for bb, t in g.calls() if _always_admits(F.callee_fn(t))]
         ok_b = len(calls_adm) == 1 and cfg.all_paths_pass(g, 0, cfg.exits(g), set(calls_adm))
         R.ob('C13.admit', ('accept path', 'every arrival is put to the admission decision'), ok_b,
              'the function that wraps an accepted transport calls the admission function on every path (no shortcut decides without looking at the key\'s live count)', [g.loc(g.d)])
